@@ -98,8 +98,8 @@ theorem walk_end {c : Cfg} {root : Path} {fs : FS} (hi : Inv c root fs) {rr : Li
       refine ⟨m, ?_⟩
       rw [hp, hcur0, List.dropLast_append_of_ne_nil hne]; exact hm
     | curDir =>
-      simp only [step, Except.ok.injEq] at hst
-      subst hst; exact ih hs0 hc0 hcur0
+      obtain ⟨_, hp⟩ := step_cur_inv hst
+      subst hp; exact ih hs0 hc0 hcur0
     | rootDir => exact (safe_not_rootDir hs).elim
 
 theorem walk_end_search {c : Cfg} {root : Path} {fs : FS} (hi : Inv c root fs) {rr : List Comp}
@@ -242,7 +242,7 @@ theorem ensureR_post {c : Cfg} {root : Path} {fs : FS} (hi : Inv c root fs) (hpc
     | curDir =>
       simp only [resolveStep]
       refine ⟨?_, hi0, hk0, hf0.weaken⟩
-      rw [walkR_cons_ok hw0]; rfl
+      rw [walkR_cons_ok hw0]; exact step_cur hsearch0
     | rootDir => exact (safe_not_rootDir hs).elim
 
 /-- A walk that fails although no regular file is in the way fails with ENOENT. -/
@@ -274,7 +274,7 @@ theorem walk_err_notFound {c : Cfg} {root : Path} {fs : FS} (hi : Inv c root fs)
           exact this hl
         · cases h
       | parentDir => simp [step, hsearch] at h
-      | curDir => simp [step] at h
+      | curDir => simp [step, hsearch] at h
       | rootDir => simp [step] at h
 
 /-! ### `create_dir_all` -/
@@ -286,7 +286,10 @@ theorem cda_root {c : Cfg} {root : Path} {fs : FS} (hi : Inv c root fs) (dot : B
   | cons x up =>
     obtain ⟨m, hm⟩ := hi.rootDir
     have hw : walkR c fs (dotted (x :: up) dot) = .ok root := by
-      rw [← hr]; exact walkR_dotted dot hi.chain
+      rw [← hr]
+      exact walkR_dotted dot hi.chain (fun _ => by
+        have := (hi.search (r := []) (by rw [List.append_nil]; exact hm)).1
+        rwa [List.append_nil] at this)
     obtain ⟨h1, h2⟩ := mkdir_exists hw hm
     simp [createDirAll, h1, h2]
 
@@ -332,7 +335,7 @@ theorem mkdir_last {c : Cfg} {root : Path} {fs : FS} (hi : Inv c root fs) {x : C
   | curDir =>
     right
     have hw1 : walkR c fs (Comp.curDir :: (up ++ rootRev root)) = .ok cur0 := by
-      rw [walkR_cons_ok hw]; rfl
+      rw [walkR_cons_ok hw]; exact step_cur hsearch
     obtain ⟨_, m, hm⟩ := walk_end hi hs (by rw [List.cons_append]; exact hw1)
     obtain ⟨h1, h2⟩ := mkdir_exists hw1 hm
     exact ⟨h1, h2, by simp [ensureR, hnoop]⟩
@@ -395,9 +398,11 @@ theorem cda_eq_dot {c : Cfg} {root : Path} {fs : FS} (hi : Inv c root fs) (hpc :
       have hsearch := (walk_end_search hi' hs0 hw').1
       have hw1 : walkR c fs' (Comp.parentDir :: (up ++ rootRev root)) = .ok cur0.dropLast := by
         rw [walkR_cons_ok hw']; exact step_parent hsearch
-      obtain ⟨_, m, hm⟩ := walk_end hi' hs (by rw [List.cons_append]; exact hw1)
+      obtain ⟨hpe, m, hm⟩ := walk_end hi' hs (by rw [List.cons_append]; exact hw1)
+      have hsr : canSearch c fs' cur0.dropLast = true := by
+        rw [hpe] at hm ⊢; exact (hi'.search hm).1
       have hw2 : walkR c fs' (Comp.curDir :: Comp.parentDir :: (up ++ rootRev root)) = .ok cur0.dropLast := by
-        rw [walkR_cons_ok hw1]; rfl
+        rw [walkR_cons_ok hw1]; exact step_cur hsr
       exact mkdir_exists hw2 hm
     cases hw : walkR c fs (up ++ rootRev root) with
     | ok cur0 =>
